@@ -6,6 +6,9 @@ HERE = os.path.dirname(os.path.dirname(os.path.abspath(__file__)))
 TECH = "deterministic simulation with fault injection: seeded search over operation/fault histories against a reference model, ddmin-minimised replay files"
 
 CLAIMED = {
+ "C11": dict(section="5.6", level="exploration",
+   text="A history is one way of cutting a seeded sample stream into an initial batch plus increments. For PCAVectorModel and PointCloud-backed PCAModel (centred/uncentred, first batch below and above d, forgetting factor 1) and for GMRFVectorModel / GMRFModel with incremental=True (edgeless, chain, cycle, random undirected, tree and directed graphs without antiparallel pairs; both edge modes; sparse/dense; both bias values) the incrementally updated model is compared after EVERY increment with the batch model built from the concatenated prefix: sample count, mean, eigenvalues (top batch-rank; surplus must vanish), principal subspaces (projector onto the top-j components at every clear spectral gap), component bookkeeping; GMRF mean and dense view of the precision. The batch PCA oracle is cross-checked against the harness' own SVD. Increment arguments must not be modified and a non-incremental GMRF must refuse. Random compositions plus ALL compositions of n for small n (quick: n<=6, thorough: n<=8) as an exhaustively enumerated sub-space. Sampling, not proof.",
+   note="Trusted: the batch constructors as oracle (as the property states), NumPy SVD for the cross-check. No trimming between increments, no exactly-zero data mean, >= 2 features per vertex and enough samples in the first GMRF batch for invertible edge covariances."),
  "C10": dict(section="5.5", level="exploration",
    text="Seeded histories on long-lived PCA models (vector-backed and PointCloud-, Image-, MaskedImage-backed; n on both sides of d so both pca() branches run; centred and uncentred; inplace on/off; optional max_n_components at build): integer and variance-fraction settings of n_active_components in and out of range, trim_components(n) and trim_components(), copies that diverge. After every step every model in the pool is checked against the harness' own SVD spectrum and a two-integer bookkeeping model (kept k, active a): counts and shapes, orthonormal components, positive descending eigenvalues equal to the spectrum and to the sample variance along each component, mean, constant original variance, variance / noise variance / ratios, kept + discarded = original, equality (up to per-component sign) with a freshly built model with max_n_components=k and n_active=a, project(instance(w)) = w, idempotent orthogonal reconstruction, orthogonal project_out residual, exact reconstruction of every training sample when everything is kept, fraction form selects the smallest count reaching the fraction. Sampling, not proof.",
    note="Trusted: numpy.linalg.svd as the independent spectrum; spectra are generated well separated (ratio 0.72); out-of-range settings may raise or clamp (the model follows the SUT when it reports a valid count); data are always passed as copies."),
